@@ -100,6 +100,9 @@ class Repo:
                 try:
                     tree = expand_compiled_regexes(tree)
                     tree = expand_format_calls(tree)
+                    from .inline import expand_functional_idioms, hoist_walrus
+                    tree = expand_functional_idioms(tree)
+                    tree = hoist_walrus(tree)
                     tree, decs = expand_decorators(tree)
                     tree, dcs = desugar_dataclasses(tree)
                     from .inline import expand_contextmanagers
